@@ -123,6 +123,8 @@ class ManagedRoles:
                 if len(fl) == 1 and fl[0]['ty'] in ('F',) and any(
                         i.get('trait') == 'std::ops::Drop' and adt_of(i['self_ty']) == a['path'] for i in c.impls):
                     self.DROPGUARD = a['path']
+        cons = [b for b in prog.bodies.values() if any(s.kind == 'assign' and s.rv.kind == 'agg' and s.rv.j.get('adt') == self.INNER for blk in b.blocks for s in blk.stmts)]
+        self.CONSTRUCTOR = cons[0] if len(cons) == 1 else None
         self.MANAGER_TRAIT = 'deadpool::managed::Manager'
         self._users_guard = None
         # the timeout wrapper: the one local coroutine of the managed module that calls Runtime::timeout
@@ -171,7 +173,8 @@ class ManagedRoles:
 
     def _bind_size_max(self):
         # preferred: the constructor (size starts at the constant 0, max_size comes from the configuration)
-        fb = self.prog.body('deadpool::managed::Pool::from_builder')
+        cons = [b for b in self.prog.bodies.values() if any(s.kind == 'assign' and s.rv.kind == 'agg' and s.rv.j.get('adt') == self.SLOTS for blk in b.blocks for s in blk.stmts)]
+        fb = cons[0] if len(cons) == 1 else None
         if fb is not None:
             an = self.prog.an(fb)
             for blk in fb.blocks:
